@@ -22,8 +22,8 @@ ASSUMPTIONS = [
     "at the class-field position the two classes differ by construction, so the field values are compared",
 ]
 PLAN = {"quick": dict(cases=2600, inputs=14), "thorough": dict(cases=60000, inputs=30)}
-FLOORS = {"quick": {"pairs_compared": 60000, "chain_position_combos": 120, "string_ref_calls": 5000, "builds": 2400, "codec_pairs_compared": 10000},
-          "thorough": {"pairs_compared": 2500000, "chain_position_combos": 300, "string_ref_calls": 200000, "builds": 55000, "codec_pairs_compared": 400000}}
+FLOORS = {"quick": {"pairs_compared": 50000, "chain_position_combos": 120, "string_ref_calls": 5000, "builds": 2200, "codec_pairs_compared": 9000, "bytes_like_pairs_compared": 5000, "bytes_chain_combos": 40},
+          "thorough": {"pairs_compared": 2000000, "chain_position_combos": 300, "string_ref_calls": 200000, "builds": 50000, "codec_pairs_compared": 350000, "bytes_like_pairs_compared": 100000, "bytes_chain_combos": 80}}
 
 NAMED = ["newtype", "alias", "stralias"]
 POSITIONS = ["root", "coll", "mapval", "tuple", "union", "field"]
@@ -66,9 +66,71 @@ def canaries(sh):
     sh.canary("exception-class-differs", ("raised", "ValueError") != ("raised", "TypeError"))
 
 
+BYTES_PAYLOADS = [b"", b"abc", b"\xff\xfe\x00", b'{"a": 1}', b"[1, 2", "é".encode(), b"null", b"12"]
+
+
+def bytes_case(sh, rng):
+    """bytes-like T (carried verbatim by codec(T)) behind every wrapper chain, at the root: routines and codecs for W(T) must behave
+    like those for T on payloads in every bytes-like carrier and on hostile inputs."""
+    prog = U.Program(rng)
+    gen = U.Gen(prog, rng, U.Opts(depth=0))
+    tname = rng.choice(["bytes", "bytes", "bytearray", "memoryview"])
+    base = prog.spec("scalar", tname, name=tname, cls={"bytes": bytes, "bytearray": bytearray, "memoryview": memoryview}[tname])
+    n = rng.choice([1, 1, 2, 3])
+    chain, w = [], base
+    for j in range(n):
+        last = j == n - 1
+        cands = list(NAMED) + (["final", "classvar", "strref", "fwdref", "strref_dotted", "strexpr"] if last else [])
+        kind = rng.choice(cands)
+        chain.append(kind)
+        w = gen.wrap_of(w, kind)
+    prog.build()
+    label = "+".join(chain) + "@root[" + tname + "]"
+    sh.see("bytes_chain_combos", label)
+    try:
+        W, T = prog.ev(w.src), base.info["cls"]
+        caller = getattr(prog.module, f"_call{rng.randrange(1, 7)}")
+        via = isinstance(W, str)
+
+        def call(fn, *a):
+            return outcome(caller, fn, *a) if via else outcome(fn, *a)
+
+        rec = dict(chain=label, base_src=tname, wrapped_src=w.src, plain_src=tname, module_src=prog.source[-1500:])
+        built = {}
+        for what, fn in (("unmarshaller", typelib.unmarshaller), ("marshaller", typelib.marshaller), ("codec", typelib.codec)):
+            a, b = outcome(fn, T), call(fn, W)
+            if a[0] == "ok" and b[0] != "ok":
+                sh.violation("wrapped-does-not-build", which=what, got=short(b), **rec)
+                return
+            built[what] = (a[1], b[1])
+        inputs = [c(pl) for pl in rng.sample(BYTES_PAYLOADS, 4) for c in (bytes, bytearray, memoryview)]
+        inputs += [x for x in (hostile.pool_item(rng) for _ in range(6)) if not hasattr(x, "__next__")]
+        for x in inputs:
+            for what, meth in (("unmarshaller", None), ("marshaller", None), ("codec", "encode"), ("codec", "decode")):
+                ra, rb = built[what]
+                fa, fb = (getattr(ra, meth), getattr(rb, meth)) if meth else (ra, rb)
+                a, b = outcome(fa, x), outcome(fb, x)
+                if "skip" in (a[0], b[0]):
+                    continue
+                sh.count("bytes_like_pairs_compared")
+                sh.eval((label, what, meth, repr(bytes(x)) if isinstance(x, (bytes, bytearray, memoryview)) else repr(type(x))))
+
+                def norm(r):
+                    return (type(r).__name__, bytes(r)) if isinstance(r, (bytes, bytearray, memoryview)) else canon(r, strict=True)
+
+                same = a[0] == b[0] and (norm(a[1]) == norm(b[1]) if a[0] == "ok" else a[1] == b[1])
+                if not same:
+                    sh.violation("not-transparent", direction=f"{what}.{meth or 'call'}", input=short(bytes(x) if isinstance(x, memoryview) else x, 120),
+                                 plain=short(a, 200), wrapped=short(b, 200), **rec)
+    finally:
+        prog.drop()
+
+
 def run_case(sh, i, plan):
     rng = case_rng(sh, i)
     clear_typelib_caches(also_typing=True)
+    if rng.random() < 0.08:
+        return bytes_case(sh, rng)
     opts = U.Opts(depth=rng.choice([0, 1, 1, 2]), wrappers=False, recursive=False)
     prog = U.Program(rng)
     gen = U.Gen(prog, rng, opts)
